@@ -2156,6 +2156,48 @@ func follow§(p *P§, a *A§, b **B§, l *L§, m *M§, f *Fn§, c *C§, s *S§) 
 	return *p, m, &a
 }
 func deref§(p P§, a A§) (P§, B§) { return *p, *a }
+### typeassert_gap | exprs
+type ifm§ interface{ M() }
+func F§(r ifm§, e error) {
+	_ = r. /* c */ (ifm§)
+	_ = e.
+		(error)
+	_, _ = r. (ifm§)
+	_ = e.(error)
+	_ = r . /* a */ /* b */ (ifm§)
+	switch e. /* sw */ (type) {
+	case error:
+	}
+}
+### bodiless | stmts
+func ext§(x int) int
+
+func beforeExt§(xs []int, s string) []int {
+	if len(s) == 0 {
+		return xs[:]
+	}
+	xs = append(xs, 1)
+	xs = append(xs, 2)
+	return xs
+}
+
+//go:noescape
+func ext2§(p *int)
+
+func afterExt§(xs []int) int {
+	n := 0
+	for i := 0; i < len(xs); i++ {
+		defer func() { n++ }()
+	}
+	if n == 1 {
+		return 1
+	} else if n == 2 {
+		return 2
+	} else if n == 3 {
+		return 3
+	}
+	return ext§(n)
+}
 ### multiopts | exprs
 type opt§ func(*int)
 func withA§(x int) opt§ { return func(*int) {} }
